@@ -219,6 +219,11 @@ impl KnownFindings {
         Ok(Self { known, fixed })
     }
     pub fn lookup(&self, prop: &str, key: &str) -> Option<&str> {
+        // a known finding is the same finding in a feature-variant build
+        let key = match key.strip_prefix("feature=") {
+            Some(rest) => rest.split_once('/').map(|x| x.1).unwrap_or(key),
+            None => key,
+        };
         self.known.iter().find(|(p, k, _)| p == prop && k == key).map(|(_, _, d)| d.as_str())
     }
 }
@@ -236,7 +241,7 @@ pub fn write_replay(root: &Path, prop: &str, f: &Finding) -> Result<PathBuf, Str
     let dir = root.join("replays").join(prop);
     std::fs::create_dir_all(&dir).map_err(|e| format!("mkdir {}: {e}", dir.display()))?;
     let path = dir.join(format!("{}.json", sanitize(&f.key)));
-    let body = json!({"property": prop, "key": f.key, "detail": f.detail, "case": f.case});
+    let body = json!({"property": prop, "key": f.key, "detail": f.detail, "variant": crate::variant(), "case": f.case});
     std::fs::write(&path, serde_json::to_string_pretty(&body).unwrap()).map_err(|e| format!("write {}: {e}", path.display()))?;
     Ok(path)
 }
@@ -259,5 +264,17 @@ pub fn write_evidence(ctx: &Ctx, run: &Run, violations: usize, known: &[String])
         "violations": violations,
     });
     let path = dir.join(format!("{}.json", ctx.id));
+    if !crate::variant().is_empty() {
+        // a feature-variant run adds its result to the evidence the default-feature run has just written
+        let mut base: Value = std::fs::read_to_string(&path).ok().and_then(|t| serde_json::from_str(&t).ok()).ok_or_else(|| format!("variant run: no evidence of the default-feature run at {}", path.display()))?;
+        let total = base["violations"].as_u64().unwrap_or(0) + violations as u64;
+        base["violations"] = json!(total);
+        base["wall_s"] = json!(base["wall_s"].as_f64().unwrap_or(0.0) + ev["wall_s"].as_f64().unwrap_or(0.0));
+        base["coverage"]["feature_runs"][crate::variant()] = json!({"evaluations": ev["coverage"]["evaluations"], "distinct_nontrivial": ev["coverage"]["distinct_nontrivial"], "distinct_outcomes": ev["coverage"]["distinct_outcomes"], "findings": ev["coverage"]["findings"], "violations": violations, "wall_s": ev["wall_s"]});
+        if let Some(a) = base["assumptions"].as_array_mut() {
+            a.push(json!(format!("the check also ran against the library built as variant {} (coverage.feature_runs)", crate::variant())));
+        }
+        return std::fs::write(&path, serde_json::to_string_pretty(&base).unwrap() + "\n").map_err(|e| format!("write {}: {e}", path.display()));
+    }
     std::fs::write(&path, serde_json::to_string_pretty(&ev).unwrap() + "\n").map_err(|e| format!("write {}: {e}", path.display()))
 }
